@@ -17,10 +17,15 @@ from . import common, progs
 ID = 'C10'
 LEVEL = 'fault_enumeration'
 TIERS = {
-    'quick': {'cases': 1800, 'wall': 100, 'chunk': 12},
-    'thorough': {'cases': 60000, 'wall': 1500, 'chunk': 24},
+    'quick': {'cases': 2547 + 1800, 'wall': 110, 'chunk': 12},
+    'thorough': {'cases': 2547 + 60000, 'wall': 1500, 'chunk': 24},
 }
-RULE = ('case i: one seeded source text - random Unicode text, random bytes, token soup, a generated valid '
+RULE = ('cases 0..2546: the SINGLE-DAMAGE MATRIX - every alien expression (ill-typed, empty-valued, undefined, not '
+        'constant, huge) alone in each of 25 small host positions (argument, statement, declaration, condition, array '
+        'length, index, try body, stop handler, defeat function, return, operand, ??, !truth_is_defeat, global '
+        'initialiser used / unused / const / used in a function, global array length and element, element store, for '
+        'step) and every bad statement alone in 9 host contexts, so that one error that slips through the type checker '
+        'reaches the code generator unmasked; every 10th with I/O fault enumeration. Further cases: one seeded source text - random Unicode text, random bytes, token soup, a generated valid '
         'program (sequential or time travel), that program mutated at token level (delete / insert / swap / '
         'duplicate / replace tokens), truncated at a token boundary (end-of-file spans), ill-typed by type '
         'and flavour substitution, or ill-typed by tree surgery (alien expressions in place of well-typed ones, '
@@ -305,6 +310,107 @@ def illtype(rnd, prog):
     return prog
 
 
+# ---- single-damage matrix: every alien expression / bad statement alone in every small host -----------------
+# Random damage rarely leaves exactly one error in reachable code of the right context; the matrix does, so that an
+# error that slips through the type checker reaches the code generator instead of being masked by another one.
+MORE_EXPRS = [
+    ('idx', ('arr', (('int', 10), ('int', 20), ('int', 30))), ('int', 1)), ('call', 'seven', ()),
+    ('len', ('arr', (('int', 1), ('int', 2)))), ('spec', ('int', 1), ('int', 2)), ('idx', ('str', 'ab'), ('int', 0)),
+    ('var', 'later'), ('bin', '+', ('var', 'later'), ('int', 1)), ('int', 40000), ('int', 10 ** 9), ('int', 2 ** 62), ('int', -1),
+    ('bin', '*', ('int', 70000), ('int', 70000)), ('un', '-', ('int', 1)), ('bool', True), ('chr', 200), ('str', 'text'),
+    ('is', ('int', 300), 'byte'), ('bin', '/', ('int', 7), ('int', 2)), ('bin', '<', ('int', 1), ('int', 2)),
+    ('call', '!boom', ()), ('call', '@you_fn', ()), ('arr', (('str', 'a'), ('str', 'b'))), ('arr', (('bool', True),)),
+]
+_NOTHING = ('func', 'empty', 'nothing', (), ('block', ()))
+_SEVEN = ('func', 'int', 'seven', (), ('block', (('ret', ('int', 7)),)))
+_BOOM = ('func', 'int', '!boom', (), ('block', (('expr', ('call', '!truth_is_defeat', (('bin', '>', ('var', 'later'), ('int', 3)),))), ('ret', ('int', 1)))))
+_YOUFN = ('func', 'int', '@you_fn', (), ('block', (('ret', ('int', 2)),)))
+_LATER = ('decl', 'int', 'later', ('int', 5), False)
+N_MATRIX = 2547     # = len(matrix_jobs()), asserted in case()
+_W1 = ('expr', ('call', 'write', (('int', 1),)))
+
+
+def _you(*stmts, glob=(), funcs=()):
+    return ('prog', tuple(glob) + (_LATER,), (_NOTHING, _SEVEN, _BOOM, _YOUFN) + tuple(funcs) +
+            (('func', 'empty', '@is_you', (), ('block', tuple(stmts))),))
+
+
+E_HOSTS = {
+    'write': lambda e: _you(('expr', ('call', 'write', (e,)))),
+    'stmt': lambda e: _you(('expr', e), _W1),
+    'decl': lambda e: _you(('decl', 'int', 'z', e, False), ('expr', ('call', 'write', (('var', 'z'),)))),
+    'if': lambda e: _you(('if', e, ('block', (_W1,)), None)),
+    'while': lambda e: _you(('while', e, ('block', (('break',),))), _W1),
+    'dynlen': lambda e: _you(('dyn', 'int', 'a', e), ('expr', ('call', 'write', (('len', ('var', 'a')),)))),
+    'index': lambda e: _you(('decl', ('arrt', 'int', False), 'a', ('arr', (('int', 1), ('int', 2), ('int', 3))), True),
+                            ('expr', ('call', 'write', (('idx', ('var', 'a'), e),)))),
+    'in_try': lambda e: _you(('try', ('block', (('expr', e), ('expr', ('call', '!is_defeat', ())))), 'undo', ('block', (_W1,)))),
+    'in_stop': lambda e: _you(('try', ('block', (('expr', ('call', '!is_defeat', ())),)), 'stop', ('block', (('expr', e), _W1)))),
+    'in_defeat_fn': lambda e: _you(('try', ('block', (('expr', ('call', '!d', ())),)), 'stop', ('block', ())),
+                                   funcs=(('func', 'empty', '!d', (), ('block', (('expr', e), ('expr', ('call', '!is_defeat', ()))))),)),
+    'return': lambda e: _you(('expr', ('call', 'write', (('call', 'f', ()),))),
+                             funcs=(('func', 'int', 'f', (), ('block', (('ret', e),))),)),
+    'arg': lambda e: _you(('expr', ('call', 'g', (e, ('int', 1)))),
+                          funcs=(('func', 'empty', 'g', (('int', 'p'), ('int', 'q')), ('block', (('expr', ('call', 'write', (('var', 'p'),))),))),)),
+    'operand': lambda e: _you(('expr', ('call', 'write', (('bin', '+', ('int', 1), e),)))),
+    'spec_left': lambda e: _you(('expr', ('call', 'write', (('spec', e, ('int', 2)),)))),
+    'truth': lambda e: _you(('try', ('block', (('expr', ('call', '!truth_is_defeat', (e,))),)), 'undo', ('block', ()))),
+    'global': lambda e: _you(('expr', ('call', 'write', (('var', 'g'),))), glob=(('decl', 'int', 'g', e, False),)),
+    'global_unused': lambda e: _you(_W1, glob=(('decl', 'int', 'g', e, False),)),
+    'global_const': lambda e: _you(('expr', ('call', 'write', (('bin', '+', ('var', 'g'), ('int', 1)),))), glob=(('decl', 'int', 'g', e, True),)),
+    'global_in_fn': lambda e: _you(('expr', ('call', 'write', (('call', 'f', ()),))), glob=(('decl', 'int', 'g', e, False),),
+                                   funcs=(('func', 'int', 'f', (), ('block', (('ret', ('var', 'g')),))),)),
+    'global_len': lambda e: _you(('expr', ('call', 'write', (('len', ('var', 'ga')),))), glob=(('dyn', 'int', 'ga', e),)),
+    'global_blen': lambda e: _you(('expr', ('call', 'write', (('len', ('var', 'ga')),))), glob=(('dyn', 'bool', 'ga', e),)),
+    'global_arr': lambda e: _you(('expr', ('call', 'write', (('idx', ('var', 'ga'), ('int', 0)),))),
+                                 glob=(('decl', ('arrt', 'int', False), 'ga', ('arr', (('int', 1), e)), True),)),
+    'elem_set': lambda e: _you(('decl', ('arrt', 'int', False), 'a', ('arr', (('int', 1), ('int', 2))), True),
+                               ('set', ('idx', ('var', 'a'), ('int', 0)), e), _W1),
+    'for_step': lambda e: _you(('for', ('decl', 'int', 'i', ('int', 0), False), ('bin', '<', ('var', 'i'), ('int', 2)),
+                                ('expr', e), ('block', (('aug', '+', ('var', 'i'), ('int', 1)),)))),
+}
+S_HOSTS = {
+    'you': lambda ss: _you(*ss, _W1),
+    'you_tail': lambda ss: _you(_W1, *ss),
+    'try': lambda ss: _you(('try', ('block', tuple(ss) + (('expr', ('call', '!is_defeat', ())),)), 'undo', ('block', (_W1,)))),
+    'handler': lambda ss: _you(('try', ('block', (('expr', ('call', '!is_defeat', ())),)), 'stop', ('block', tuple(ss)))),
+    'defeat_fn': lambda ss: _you(('try', ('block', (('expr', ('call', '!d', ())),)), 'undo', ('block', ())),
+                                 funcs=(('func', 'empty', '!d', (), ('block', tuple(ss))),)),
+    'plain_fn': lambda ss: _you(('expr', ('call', 'h', ())), funcs=(('func', 'empty', 'h', (), ('block', tuple(ss))),)),
+    'int_fn': lambda ss: _you(('expr', ('call', 'write', (('call', 'h', ()),))),
+                              funcs=(('func', 'int', 'h', (), ('block', tuple(ss) + (('ret', ('int', 1)),))),)),
+    'loop': lambda ss: _you(('for', ('decl', 'int', 'i', ('int', 0), False), ('bin', '<', ('var', 'i'), ('int', 2)),
+                             ('aug', '+', ('var', 'i'), ('int', 1)), ('block', tuple(ss)))),
+    'if': lambda ss: _you(('if', ('bin', '<', ('var', 'later'), ('int', 9)), ('block', tuple(ss)), ('block', (_W1,)))),
+}
+
+
+def matrix_jobs():
+    jobs = []
+    for hn in E_HOSTS:
+        for k in range(len(ALIENS) + len(MORE_EXPRS)):
+            jobs.append(('e', hn, k))
+    for hn in S_HOSTS:
+        for k in range(len(BAD_STMTS)):
+            jobs.append(('s', hn, k, 1))
+            if k:
+                jobs.append(('s', hn, k, 2))
+    return jobs
+
+
+MATRIX = None
+
+
+def matrix_source(job):
+    if job[0] == 'e':
+        e = (ALIENS + MORE_EXPRS)[job[2]]
+        p = E_HOSTS[job[1]](e)
+    else:
+        k = job[2]
+        p = S_HOSTS[job[1]](BAD_STMTS[k:k + 1] if job[3] == 1 else BAD_STMTS[k - 1:k + 1])
+    return render.program(p)
+
+
 M_OPTS = (0, 8, 12, 16, 24, 32, 64, -8, 16, 24, 32, 14400, 80000)
 S_OPTS = (-1, 0, 1, 20, 500, 10 ** 6, 10 ** 9)
 
@@ -527,17 +633,28 @@ def judge(kind, payload, opts, idx, enumerate_faults=True, cross_check=False):
 
 
 def case(seed, idx, tier):
+    global MATRIX
     rnd = case_rng(seed, ID, idx)
-    kind, payload = make_source(rnd)
-    opts = make_options(rnd)
-    if idx % 9 == 0 and isinstance(payload, str):
-        # a valid-looking text with a few undecodable bytes spliced in
-        b = payload.encode('utf-8', 'replace')
-        pos = rnd.randrange(len(b) + 1)
-        payload = b[:pos] + bytes([rnd.choice((0xff, 0xfe, 0xc0, 0x80))]) + b[pos:]
-        kind += '+badbyte'
-    res = common.new_result()
-    viol, stats, accepted = judge(kind, payload, opts, idx, cross_check=(idx % 40 == 0))
+    if MATRIX is None:
+        MATRIX = matrix_jobs()
+        assert len(MATRIX) == N_MATRIX, len(MATRIX)
+    if idx < len(MATRIX):
+        job = MATRIX[idx]
+        res = common.new_result()
+        try:
+            payload = matrix_source(job)
+        except Exception as e:   # noqa: BLE001 - an item the renderer cannot print in this host
+            res['key'] = f'unrenderable{idx}'
+            res['counters']['matrix_unrenderable'] = 1
+            return res
+        opts = {'unchecked': idx % 5 == 3, 'lint': idx % 7 == 2, 'o': idx % 3 != 0}
+        if idx % 11 == 0:
+            opts['m'] = (24, 32, 64)[idx % 3]
+        kind = 'matrix_' + job[0]
+        viol, stats, accepted = judge(kind, payload, opts, idx, enumerate_faults=(idx % 10 == 0), cross_check=(idx % 400 == 0))
+    else:
+        idx -= len(MATRIX)
+        kind, payload, opts, res, viol, stats, accepted = case_random(rnd, idx)
     raw = payload if isinstance(payload, bytes) else payload.encode('utf-8', 'surrogatepass')
     res['key'] = digest(raw, sorted(opts.items()))
     res['nontrivial'] = bool(stats['fs_calls'] and (stats['fault_points'] or kind != 'valid'))
@@ -555,6 +672,20 @@ def case(seed, idx, tier):
             'payload': {'kind': kind, 'options': opts, 'data_latin1': raw.decode('latin-1'), 'extra': extra},
             'sample': {'kind': kind, 'options': opts, 'source': raw.decode('utf-8', 'replace')[:800]}})
     return res
+
+
+def case_random(rnd, idx):
+    kind, payload = make_source(rnd)
+    opts = make_options(rnd)
+    if idx % 9 == 0 and isinstance(payload, str):
+        # a valid-looking text with a few undecodable bytes spliced in
+        b = payload.encode('utf-8', 'replace')
+        pos = rnd.randrange(len(b) + 1)
+        payload = b[:pos] + bytes([rnd.choice((0xff, 0xfe, 0xc0, 0x80))]) + b[pos:]
+        kind += '+badbyte'
+    res = common.new_result()
+    viol, stats, accepted = judge(kind, payload, opts, idx, cross_check=(idx % 40 == 0))
+    return kind, payload, opts, res, viol, stats, accepted
 
 
 def replay(pl):
